@@ -87,6 +87,7 @@ type Env struct {
 	TCP     string
 	HTTP    string
 	dir     string
+	scratch string
 	hc      *http.Client
 	mainErr chan error
 	by      *Bystander
@@ -125,7 +126,7 @@ func StartEnv(l Limits, kind, scratch string) (*Env, error) {
 		os.RemoveAll(dir)
 		return nil, err
 	}
-	e := &Env{L: l, Kind: kind, D: d, dir: dir, mainErr: make(chan error, 1)}
+	e := &Env{L: l, Kind: kind, D: d, dir: dir, scratch: scratch, mainErr: make(chan error, 1)}
 	go func() { e.mainErr <- d.Main() }()
 	e.TCP = d.RealTCPAddr().String()
 	e.HTTP = d.RealHTTPAddr().String()
@@ -134,6 +135,7 @@ func StartEnv(l Limits, kind, scratch string) (*Env, error) {
 }
 
 func (e *Env) Stop() {
+	releaseDyingOf(e) // a topic deletion still parked by the gate (dying.go) would block Exit
 	e.D.Exit()
 	os.RemoveAll(e.dir)
 }
